@@ -199,7 +199,7 @@ func ruleC01R2(r *Run) {
 	// (*shrinker).shrink: results are named cells also written by the recover closure
 	if fn := r.MustFn("(*shrinker).shrink$1"); fn != nil {
 		var bufV, errV ssa.Value
-		for _, b := range fn.Blocks {
+		for _, b := range p.body(fn) {
 			for _, in := range b.Instrs {
 				if st, ok := in.(*ssa.Store); ok {
 					switch p.expr(st.Addr) {
@@ -251,7 +251,7 @@ func ruleC01R2(r *Run) {
 		// constructor: rec/err/prop fields from the parameters, prune before
 		want := map[string]string{"rec": "alloc(rec)", "err": "$err", "prop": "$prop", "tb": "$tb"}
 		got := map[string]string{}
-		for _, b := range sh.Blocks {
+		for _, b := range p.body(sh) {
 			for _, in := range b.Instrs {
 				if st, ok := in.(*ssa.Store); ok {
 					if fa, ok := st.Addr.(*ssa.FieldAddr); ok && p.fieldAddrOwner(fa) == "shrinker" {
@@ -591,7 +591,7 @@ func ruleC05R3(r *Run) {
 	p := r.P
 	if fn := r.MustFn("sameError"); fn != nil {
 		haveMsg, haveTB := false, false
-		for _, b := range fn.Blocks {
+		for _, b := range p.body(fn) {
 			for _, in := range b.Instrs {
 				bo, ok := in.(*ssa.BinOp)
 				if !ok || bo.Op != token.EQL {
@@ -772,7 +772,7 @@ func ruleC05R4(r *Run) {
 	r.Floor("stores to shrinker.rec / shrinker.err", n, 4)
 	// writes through s.rec (its data / groups) outside accept's prune
 	for _, fn := range p.FuncList {
-		for _, b := range fn.Blocks {
+		for _, b := range p.body(fn) {
 			for _, in := range b.Instrs {
 				st, ok := in.(*ssa.Store)
 				if !ok {
@@ -1008,7 +1008,7 @@ func ruleC05R6(r *Run) {
 		if !strings.HasPrefix(p.fnName(fn), "(*shrinker).") {
 			continue
 		}
-		for _, b := range fn.Blocks {
+		for _, b := range p.body(fn) {
 			for _, in := range b.Instrs {
 				st, ok := in.(*ssa.Store)
 				if !ok {
